@@ -1,6 +1,6 @@
 (* C08 model driver: evaluates the extracted ModuleModel at floats on case lines from stdin.
    RUN fixed efix natoms it0 nv tsf.. nb {id tsf nvars var.. kind params} nev {event}
-     kind params: H k {c w}.. | L k {c w}.. | W k {u w}.. | A k stop dec | G | C e
+     kind params: H k {c w}.. | L k {c w}.. | W k {u w}.. | A k stop dec | G | C e ; then the scaling grid: S lo w n v.. | N
      event: S|R nv {ncvc {coeff np val ng {atom gx gy gz}..}..}..   |   X id on
    -> one line, one record per calc() separated by " ; ":
      it= err= E= V=act,rc,awake,apply,arc,x,fb,fba,f|.. B=act,rc,awake,E,F:F..,REF|.. A=fx,fy,fz|.. *)
@@ -44,7 +44,10 @@ let () =
                    | "A" -> let k = nf () in let st = nf () in let d = nb () in KAbmd (k, st, d)
                    | "G" -> KHistogram
                    | _ -> KConst (nf ())) in
-               (((id, tsf), vars), kd)) in
+               let grid = (match next () with
+                   | "S" -> let lo = nf () in let wd = nf () in let n = ni () in let vals = nlist n nf in Some ((lo, wd), vals)
+                   | _ -> None) in
+               ((((id, tsf), vars), kd), grid)) in
            let nev = ni () in
            let vars_in () =
              let n = ni () in
